@@ -25,6 +25,8 @@ type c08Case struct {
 	Want       []c08Pos          `json:"want"` // recorded declarations in walk order (reference flatten order of the import graph)
 	Classes    []string          `json:"classes"`
 	NonTrivial bool              `json:"nontrivial"`
+	// annotation keys whose repeated declaration has an empty value (known finding C08-empty-annotation-location-dropped)
+	EmptyRepeated []string `json:"empty_repeated,omitempty"`
 }
 
 // ---------- generator ----------
@@ -33,12 +35,13 @@ func genC08(t *rapid.T) c08Case {
 	in := GenIntent(t)
 	lay := c04Partition(t, in) // blocks, re-opened types/REST paths/endpoints, files, import DAG
 	redeclared := c08RedeclareFields(t, lay)
+	repeated, emptyRepeated := c08RepeatAnnotations(t, lay)
 	indent := pick(t, []string{"    ", "  ", "\t", " ", "   ", "\t\t", " \t", "        "}, "indent")
 	var noise []int
 	if rapid.IntRange(0, 2).Draw(t, "usenoise") != 0 {
 		noise = rapid.SliceOfN(rapid.IntRange(0, 7), 1, 17).Draw(t, "noise")
 	}
-	c := c08Case{Files: map[string]string{}, Root: lay.Files[0].Name}
+	c := c08Case{Files: map[string]string{}, Root: lay.Files[0].Name, EmptyRepeated: emptyRepeated}
 	byName := map[string]c04File{}
 	posOf := map[string][]c08Pos{}
 	for _, f := range lay.Files {
@@ -70,6 +73,9 @@ func genC08(t *rapid.T) c08Case {
 	}
 	for _, k := range redeclared {
 		cl["field_redeclared_"+k] = true
+	}
+	for _, k := range repeated {
+		cl["annotation_repeated_"+k] = true
 	}
 	for _, n := range order {
 		for _, p := range posOf[n] {
@@ -115,6 +121,113 @@ func genC08(t *rapid.T) c08Case {
 	}
 	sort.Strings(c.Classes)
 	return c
+}
+
+const c08KEmptyAnno = "C08-empty-annotation-location-dropped"
+
+// c08RepeatAnnotations: where an application or a type is declared in several blocks, the '@k = v'
+// annotations of one block are written again in another block (same key and value): an annotation is
+// an element too, and declared n times it carries n locations. Returns "<owner>_<string|list>" kinds.
+func c08RepeatAnnotations(t *rapid.T, lay c04Layout) ([]string, []string) {
+	var kinds, empties []string
+	// known finding: a declaration whose value is empty ("" or []) loses its location when a later
+	// declaration replaces it; only non-empty annotations are repeated while that is listed
+	nonEmpty := func(annos map[string]AttrV) bool {
+		for _, v := range annos {
+			if (v.IsArr && len(v.A) == 0) || (!v.IsArr && v.S != nil && *v.S == "") {
+				return false
+			}
+		}
+		return true
+	}
+	skipEmpty := knownActive(c08KEmptyAnno)
+	note := func(owner string, annos map[string]AttrV) {
+		for _, v := range annos {
+			if v.IsArr {
+				kinds = append(kinds, owner+"_list")
+			} else {
+				kinds = append(kinds, owner+"_string")
+			}
+		}
+	}
+	apps := map[string][]*App{}
+	var order []string
+	type tkey struct{ app, typ string }
+	types := map[tkey][]*TypeDecl{}
+	var torder []tkey
+	for _, f := range lay.Files {
+		for _, b := range f.Blocks {
+			k := appKey(b.Name)
+			if _, ok := apps[k]; !ok {
+				order = append(order, k)
+			}
+			apps[k] = append(apps[k], b)
+			for _, td := range b.Types {
+				if td.Kind != "tuple" && td.Kind != "relation" {
+					continue
+				}
+				tk := tkey{k, td.Name}
+				if _, ok := types[tk]; !ok {
+					torder = append(torder, tk)
+				}
+				types[tk] = append(types[tk], td)
+			}
+		}
+	}
+	for _, k := range order {
+		bs := apps[k]
+		if len(bs) < 2 || rapid.IntRange(0, 2).Draw(t, "repeatappanno") != 0 {
+			continue
+		}
+		for _, src := range bs {
+			if len(src.Meta.Annos) == 0 {
+				continue
+			}
+			dst := bs[rapid.IntRange(0, len(bs)-1).Draw(t, "repeatappdst")]
+			if dst != src && len(dst.Meta.Annos) == 0 {
+				if skipEmpty && !nonEmpty(src.Meta.Annos) {
+					R("C08").Exclude(c08KEmptyAnno)
+					break
+				}
+				dst.Meta.Annos = src.Meta.Annos
+				note("app", src.Meta.Annos)
+				for kk, v := range src.Meta.Annos {
+					if (v.IsArr && len(v.A) == 0) || (!v.IsArr && v.S != nil && *v.S == "") {
+						empties = append(empties, "app|"+k+"|attr|"+kk)
+					}
+				}
+			}
+			break
+		}
+	}
+	for _, tk := range torder {
+		ps := types[tk]
+		if len(ps) < 2 || rapid.IntRange(0, 2).Draw(t, "repeattypeanno") != 0 {
+			continue
+		}
+		for _, src := range ps {
+			if len(src.Meta.Annos) == 0 {
+				continue
+			}
+			dst := ps[rapid.IntRange(0, len(ps)-1).Draw(t, "repeattypedst")]
+			if dst != src && len(dst.Meta.Annos) == 0 {
+				if skipEmpty && !nonEmpty(src.Meta.Annos) {
+					R("C08").Exclude(c08KEmptyAnno)
+					break
+				}
+				dst.Meta.Annos = src.Meta.Annos
+				note("type", src.Meta.Annos)
+				for kk, v := range src.Meta.Annos {
+					if (v.IsArr && len(v.A) == 0) || (!v.IsArr && v.S != nil && *v.S == "") {
+						empties = append(empties, "type|"+tk.app+"|"+unesc(tk.typ)+"|attr|"+kk)
+					}
+				}
+			}
+			break
+		}
+	}
+	sort.Strings(empties)
+	return kinds, empties
 }
 
 // c08RedeclareFields: where a type is re-opened, some fields of one part are declared again (same name
@@ -291,6 +404,7 @@ func c08Extract(m *sysl.Module) c08Got {
 func c08Generic(m protoreflect.Message, path string, files map[string][]string, n *int) error {
 	var err error
 	var single, last protoreflect.Message
+	var all []protoreflect.Message
 	hasList := false
 	m.Range(func(fd protoreflect.FieldDescriptor, v protoreflect.Value) bool {
 		p := path + "." + string(fd.Name())
@@ -323,6 +437,7 @@ func c08Generic(m protoreflect.Message, path string, files map[string][]string, 
 					}
 					*n++
 					last = sc
+					all = append(all, sc)
 				}
 			} else {
 				single = v.Message()
@@ -345,11 +460,21 @@ func c08Generic(m protoreflect.Message, path string, files map[string][]string, 
 	if err != nil {
 		return err
 	}
+	// The deprecated single source_context has no documented relation to the list (for a repeated
+	// annotation it stays with the first declaration, for an application it follows the last): it is
+	// only required to be one of the element's declarations. (A first version demanded "equals the last
+	// list entry", which the property does not say: a false alarm met when annotations were repeated.)
 	if single != nil && hasList && last != nil {
-		a, b := single.Interface().(*sysl.SourceContext), last.Interface().(*sysl.SourceContext)
-		if a.GetFile() != b.GetFile() || a.GetStart().GetLine() != b.GetStart().GetLine() || a.GetStart().GetCol() != b.GetStart().GetCol() ||
-			a.GetEnd().GetLine() != b.GetEnd().GetLine() || a.GetEnd().GetCol() != b.GetEnd().GetCol() {
-			return finding("single-context-differs-from-last-list-entry", "%s: deprecated source_context %s differs from the last source_contexts entry %s", path, c08SC(a), c08SC(b))
+		a := single.Interface().(*sysl.SourceContext)
+		found := false
+		for _, e := range all {
+			b := e.Interface().(*sysl.SourceContext)
+			if a.GetFile() == b.GetFile() && a.GetStart().GetLine() == b.GetStart().GetLine() && a.GetStart().GetCol() == b.GetStart().GetCol() {
+				found = true
+			}
+		}
+		if !found {
+			return finding("single-context-is-none-of-the-declarations", "%s: deprecated source_context %s starts at none of the %d recorded declarations (last: %s)", path, c08SC(a), len(all), c08SC(last.Interface().(*sysl.SourceContext)))
 		}
 	}
 	return nil
@@ -465,7 +590,13 @@ func checkC08(x *X, c c08Case) error {
 			return fmt.Errorf("element %q is declared at %v but the model records no location for it\n%s", k, want[k], c08FilesText(c))
 		}
 		if fmt.Sprint(g) != fmt.Sprint(want[k]) {
-			return fmt.Errorf("element %q: declared at (file line col, in walk order) %v, model records %v\n%s", k, want[k], g, c08FilesText(c))
+			msg := fmt.Sprintf("element %q: declared at (file line col, in walk order) %v, model records %v\n%s", k, want[k], g, c08FilesText(c))
+			for _, e := range c.EmptyRepeated {
+				if e == k && len(g) < len(want[k]) {
+					return finding("empty-annotation-declaration-loses-its-location", "%s", msg)
+				}
+			}
+			return fmt.Errorf("%s", msg)
 		}
 		x.r.ClassN("checked_"+kind, int64(len(g)))
 	}
